@@ -83,14 +83,14 @@ def replay(r, wd):
         if k.name == r['kernel']:
             k.unit.build(); k.build_native(); return k.run_native('real', r['inputs'])
 
-SIZE_PATTERNS = ['(a{2}){3}', 'a{12}', '(ab|c){4}', '((a|b){2}c){2}', '[a-z]{5}x*', '(a{3}b{2}){2}', '(a|b|c|d|e)+', 'a{0}b{1}c{2}', '((a?){2}){2}', '(a*b+c?){3}']
+SIZE_PATTERNS = ['(a{2}){3}', 'b{0}ac', '(ab|c){4}', '((a|b){2}c){2}', 'a{12}', '(ab){0}c|d', '[a-z]{5}x*', '(a{3}b{2}){2}', '(a|b|c|d|e)+', 'a{0}b{1}c{2}', '((a?){2}){2}', '(a*b+c?){3}']
 
 def run(tier, seed):
     R = report.Run('C12', tier, seed); cases = []
     wd = vlib.workdir('C12')
     d = {g.name: g for g in families.g_dir()}
     # (1) stack capacities of fixed-size buffers: nullable-run grammars in safety mode (R4 assertions on every stack push)
-    plan = [('nrun4', [1], 0, 0), ('nullrun', [2], 0, 0), ('trail', [2], 0, 0)] if tier == 'quick' else [(n, [1, 2, 3], 0, 0) for n in ('nrun4', 'nullrun', 'trail', 'lrece', 'rrece', 'chain')]
+    plan = [('nrun4', [1], 0, 0), ('nrun3', [2], 0, 0), ('nullrun', [2], 0, 0)] if tier == 'quick' else [(n, [1, 2, 3], 0, 0) for n in ('nrun4', 'nrun3', 'nullrun', 'trail', 'lrece', 'rrece', 'chain')]
     for n, Ls, ws, nl in plan:
         cp.run_parse_property('C12', tier, seed, [(d[n], Ls)], ['accept'], '', ['default state cap vs exponential LR(1) families (no small witness)', 'whole constructions with user limits need-1 / need / need+1 (constructor execution inside CBMC is out of reach, DESIGN 2.2)',
                                'automata beyond 65535 states (16-bit transition targets) and repetition counts whose size arithmetic wraps 32 bits: not constructible within compiler limits'],
@@ -102,7 +102,18 @@ def run(tier, seed):
     #     (an overrun is a hard error of the unit), and the solver decides sm.size() <= dfa_size together with the language on strings <= LMAX
     pats = SIZE_PATTERNS if tier != 'quick' else SIZE_PATTERNS[:4]
     b = rxcheck.RxBatch(wd, 50, pats, 4, 500)
-    vlib.build_units([b.unit]); R.add_unit(b.unit, desc='size family: ' + ' , '.join(pats))
+    vlib.build_units([b.unit])
+    if not b.unit.ok and b.unit.error and b.unit.error.startswith('clang'):
+        # a pattern whose automaton does not fit the statically computed capacity overruns the fixed-size automaton while the constant evaluator builds it: a hard error of the unit.
+        # identify the pattern(s) by building each one alone
+        import re
+        for k, p in enumerate(pats):
+            one = rxcheck.RxBatch(wd, 60 + k, [p], 4, 600 + k); one.unit.build()
+            if not one.unit.ok and re.search(r'constant expression|out of bounds|outside|cannot refer to element|subscript', one.unit.error or ''):
+                R.violation('pattern %r cannot be built with the statically computed capacity dfa_size: the constant evaluator rejects the construction (%s)' % (p, (one.unit.error or '')[:220]),
+                            {'query': 'build_rx_%d' % k, 'kind': 'build', 'pattern': p, 'input_hex': ''})
+            elif not one.unit.ok: R.inconclusive.append('pattern %r: unit does not build: %s' % (p, (one.unit.error or '')[:200]))
+    else: R.add_unit(b.unit, desc='size family: ' + ' , '.join(pats))
     if b.unit.ok:
         rres = vlib.run_queries([c.query(tag='_size') for c in b.cases])
         for r in rres:
